@@ -8,6 +8,7 @@ a violation.  Loops: every non-`for` loop needs a counter-bounded exit or a revi
 Recursion: inventory with the measure that decreases.  Stack depth and running time are NOT decided.
 """
 import json
+import flow
 import os
 import re
 from facts import norm, base_ty, walk, strip, sexp
@@ -432,8 +433,14 @@ def loops_and_recursion(F, R, fns, cg, reach):
                     ct = sexp(c)
                     if c.get("k") == "Binary" and c["op"] == "<":
                         ctr = sexp(strip(c["a"]))
-                        if any(x.get("k") == "AssignOp" and x["op"] == "+=" and sexp(strip(x["lhs"])) == ctr for x in walk(body)):
-                            why = "counter `%s` is incremented and tested against `%s`" % (ctr, sexp(strip(c["b"])))
+                        incr = lambda x, ctr=ctr: x.get("k") == "AssignOp" and x["op"] == "+=" and sexp(strip(x["lhs"])) == ctr
+                        if any(incr(x) for x in walk(body)):
+                            # path-sensitive: every path to a back edge increments the counter
+                            miss = flow.loop_progress(body, incr)
+                            if not miss:
+                                why = "counter `%s` is incremented on every path to a back edge and tested against `%s`" % (ctr, sexp(strip(c["b"])))
+                            else:
+                                R.ob("L", "%s|%s:every-path" % (p, ctr), False, F.loc(f, n), "counter `%s` is not incremented on the path(s) to %s" % (ctr, miss))
                     if c.get("k") == "LetExpr":
                         it = sexp(strip(c["init"]))
                         m = re.match(r"^(.*)\.(pop|pop_front|next)\(\)$", it)
@@ -449,7 +456,23 @@ def loops_and_recursion(F, R, fns, cg, reach):
                     R.ob("L", key, True, F.loc(f, n), "bounded: " + why)
                 else:
                     ent = LOOP_TABLE.get("_".join(key.split()))
+                    spec = []
+                    if isinstance(ent, dict):
+                        spec = ent.get("progress", [])
+                        ent = ent["why"]
                     R.ob("L", key, ent is not None, F.loc(f, n), ("reviewed: " + ent) if ent else "loop without a recognised bound and not in the reviewed loop table")
+                    for sp in spec:
+                        kind, _, place = sp.partition(":")
+                        if kind == "assign":
+                            pr = lambda x, place=place: x.get("k") == "Assign" and sexp(strip(x["lhs"])) == place
+                        elif kind == "incr":
+                            pr = lambda x, place=place: x.get("k") == "AssignOp" and x["op"] == "+=" and sexp(strip(x["lhs"])) == place
+                        else:
+                            recv, _, meth = place.rpartition(".")
+                            pr = lambda x, recv=recv, meth=meth: x.get("k") == "MCall" and x["name"] == meth and sexp(strip(x["recv"])) == recv
+                        present = any(pr(x) for x in walk(body))
+                        miss = flow.loop_progress(body, pr) if present else [("no such statement", None)]
+                        R.ob("L", key + ":" + sp, not miss, F.loc(f, n), "the reviewed bound relies on `%s` on every iteration; %s" % (sp, ("missing on the path(s) to %s" % miss) if miss else "it is executed on every path to a back edge"))
     R.count("L.loops", n_loops)
     # recursion inventory: strongly connected functions in the reachable call graph
     rec = []
